@@ -761,9 +761,9 @@ _RERUN = {}
 
 
 def _settled(case, impl):
-    """A watchdog timeout of the forked worker is re-examined once in this process (forked
-    workers occasionally inherit a held lock and stall before the case even starts); a case that
-    really hangs times out again and is reported."""
+    """A watchdog timeout of the forked worker is re-examined once in this process, measured in
+    CPU time (the wall-clock watchdog fires for millisecond cases when the machine is saturated by
+    other checks); a case that really hangs burns CPU, times out again and is reported."""
     if not (isinstance(impl, dict) and impl.get('timeout')):
         return impl
     key = json.dumps(case, sort_keys=True, default=str)
@@ -772,15 +772,20 @@ def _settled(case, impl):
 
         def _alarm(signum, frame):
             raise TimeoutError()
+        # CPU time of this process (a stalled machine does not count), wall clock only as backstop
         old = signal.signal(signal.SIGALRM, _alarm)
-        signal.setitimer(signal.ITIMER_REAL, CASE_TIMEOUT)
+        oldp = signal.signal(signal.SIGPROF, _alarm)
+        signal.setitimer(signal.ITIMER_PROF, CASE_TIMEOUT)
+        signal.setitimer(signal.ITIMER_REAL, 20 * CASE_TIMEOUT)
         try:
             _RERUN[key] = run_impl(case)
         except BaseException as e:  # noqa
             _RERUN[key] = {'timeout': True, 'again': type(e).__name__}
         finally:
+            signal.setitimer(signal.ITIMER_PROF, 0)
             signal.setitimer(signal.ITIMER_REAL, 0)
             signal.signal(signal.SIGALRM, old)
+            signal.signal(signal.SIGPROF, oldp)
     return _RERUN[key]
 
 
